@@ -50,18 +50,17 @@ theorem rpow_base_pert2 (u v : ℝ) (hu : 0 < u) (hv : 0 < v) (hu1 : u ≤ 1001 
     have hmono : v ^ ((12:ℝ) / 5) ≤ u ^ ((12:ℝ) / 5) := Real.rpow_le_rpow hv.le h (by norm_num)
     rw [abs_sub_comm, abs_of_nonneg (by linarith), abs_sub_comm, abs_of_nonneg (by linarith)]; exact hk
 
-/-- real-arithmetic core of the power branch -/
-theorem srgb_l_real (b bh r S : ℝ) (hb0 : 1 / 20 ≤ b) (hb1 : b ≤ 1) (hbh : |bh - b| ≤ 3 / 10 ^ 7)
-    (hr : |r - bh ^ ((12:ℝ) / 5)| ≤ 1832 / 10 ^ 7 + (7914 / 10 ^ 9) * (12 / 5) + 9 / 10 ^ 6)
-    (hc : |b ^ ((12:ℝ) / 5) - S| ≤ 24 / 10 ^ 6) : |r - S| < 25 / 10 ^ 5 := by
+/-- real-arithmetic core of the power branch, for a power step of accuracy `ε` -/
+theorem srgb_l_real (b bh r S ε : ℝ) (hb0 : 1 / 20 ≤ b) (hb1 : b ≤ 1) (hbh : |bh - b| ≤ 3 / 10 ^ 7)
+    (hr : |r - bh ^ ((12:ℝ) / 5)| ≤ ε)
+    (hc : |b ^ ((12:ℝ) / 5) - S| ≤ 24 / 10 ^ 6) : |r - S| ≤ ε + 2475 / 10 ^ 8 := by
   obtain ⟨d1, d2⟩ := abs_le.mp hbh
   have hp := rpow_base_pert2 b bh (by linarith) (by linarith) (by linarith) (by linarith)
   have e : r - S = (r - bh ^ ((12:ℝ) / 5)) + (bh ^ ((12:ℝ) / 5) - b ^ ((12:ℝ) / 5)) + (b ^ ((12:ℝ) / 5) - S) := by ring
   rw [e]
-  refine lt_of_le_of_lt (abs_add_three _ _ _) ?_
+  refine le_trans (abs_add_three _ _ _) ?_
   have : (5 / 2 : ℝ) * |bh - b| ≤ 5 / 2 * (3 / 10 ^ 7) := mul_le_mul_of_nonneg_left hbh (by norm_num)
   linarith
-
 
 /-- the base of the power branch, `(x + (α - 1)) / α`, as computed in binary32 -/
 theorem srgb_base (x' af αf : Nat) (X α : ℝ) (hxf : Finite x') (hxv : toReal x' = X) (h0 : 0 ≤ X) (h1 : X ≤ 1)
@@ -107,10 +106,11 @@ theorem srgb_base (x' af αf : Nat) (X α : ℝ) (hxf : Finite x') (hxv : toReal
     have h5 : ud * ((2:ℝ) / 1) ≤ (1 / 10 ^ 7) * (2 / 1) := mul_le_mul_of_nonneg_right hud (by norm_num)
     linarith
 
-variable (B : Build) (hB : B.fastmath = true)
-include hB
+section oracle
+variable (B : Build) (c0 c1 : ℝ) (ho : PowOracle B c0 c1)
+include ho
 
-theorem srgb_to_linear : CurveWithinF (srgb_eotf B) specLinear := by
+theorem srgb_to_linear_o : CurveWithinB (srgb_eotf B) specLinear (c0 + c1 * (12 / 5) + 2475 / 10 ^ 8) := by
   obtain ⟨z1, z2, z3, t1, t2, t3, a1, a2, a3, s1, s2, k1, k2, y1, y2, e1, e2, e3, e4, e5⟩ := cert_srgb_l
   have hu' : u = 1 / 16777216 := u_val
   have he' : eta ≤ 1 / 10 ^ 40 := eta_le
@@ -135,6 +135,8 @@ theorem srgb_to_linear : CurveWithinF (srgb_eotf B) specLinear := by
   set X := toReal x with hX
   set α := toReal ASRGB with hα
   set T := toReal (mul C.srgb_eotf_f1 BSRGB) with hT
+  obtain ⟨fy', vy'⟩ := near_of' _ _ _ y1 y2
+  have hy' : |toReal C.srgb_eotf_f4 - 12 / 5| ≤ 1 / 10 ^ 6 := by push_cast at vy'; norm_num at vy' ⊢; exact vy'
   by_cases hlt : lt x' (mul C.srgb_eotf_f1 BSRGB) = true
   · rw [if_pos hlt]
     have hXlt : X < T := by have := (lt_iff x' _ hxf ft).mp hlt; rw [hxv] at this; exact this
@@ -153,7 +155,10 @@ theorem srgb_to_linear : CurveWithinF (srgb_eotf B) specLinear := by
     have hcpos : 0 < c := by linarith
     have e : toReal (div x' C.srgb_eotf_f2) - X / 12.92 = (toReal (div x' C.srgb_eotf_f2) - X / c) + (X / c - X / 12.92) := by ring
     rw [e]
-    refine lt_of_le_of_lt (abs_add_le _ _) ?_
+    refine le_trans (abs_add_le _ _) ?_
+    have hεpos : 0 ≤ c0 + c1 * (12 / 5) := by
+      obtain ⟨_, _, _, _, hq⟩ := ho 0 _ (12 / 5) (by unfold WF; norm_num) c_zero.1 (by rw [c_zero.2]) (by rw [c_zero.2]; norm_num) fy' (by norm_num) (by norm_num) hy'
+      exact le_trans (abs_nonneg _) hq
     have h3 : |X / c - X / 12.92| ≤ 1 / 10 ^ 8 := by
       have e2 : X / c - X / 12.92 = X * (12.92 - c) / (c * 12.92) := by field_simp
       rw [e2, abs_div, abs_of_pos (by positivity : (0:ℝ) < c * 12.92), div_le_iff₀ (by positivity), abs_mul, abs_of_nonneg h0]
@@ -175,11 +180,8 @@ theorem srgb_to_linear : CurveWithinF (srgb_eotf B) specLinear := by
     -- the power
     obtain ⟨fy, vy⟩ := near_of' _ _ _ y1 y2
     push_cast at vy
-    have hp : powf B (div (add x' (sub ASRGB C.srgb_eotf_f3)) ASRGB) C.srgb_eotf_f4
-        = powfFast B.fma (div (add x' (sub ASRGB C.srgb_eotf_f3)) ASRGB) C.srgb_eotf_f4 := by unfold powf; rw [if_pos hB]
-    obtain ⟨r, hr1, hr2, hr3⟩ := PowCurve.pow_unit_ext B.fma (div (add x' (sub ASRGB C.srgb_eotf_f3)) ASRGB) C.srgb_eotf_f4 (12 / 5)
-      (div_wf _ _) hdbf hbh0 (by linarith) fy (by norm_num) (by norm_num) (by norm_num at vy ⊢; exact vy)
-    rw [hp]
+    obtain ⟨r, hr1, _, hr2, hr3⟩ := ho (div (add x' (sub ASRGB C.srgb_eotf_f3)) ASRGB) C.srgb_eotf_f4 (12 / 5)
+      (div_wf _ _) hdbf hbh0 (by linarith) fy' (by norm_num) (by norm_num) hy'
     refine ⟨r, hr1, hr2, ?_⟩
     -- enclosures
     have hbTq : ((bTq : ℚ) : ℝ) = (T + (α - 1)) / α := by
@@ -201,11 +203,24 @@ theorem srgb_to_linear : CurveWithinF (srgb_eotf B) specLinear := by
     have e125 : (((12:ℕ):ℝ) / ((5:ℕ):ℝ)) = (12:ℝ) / 5 := by norm_num
     rw [e125] at hE hF
     have hc := linear_consts α T X hα1 hα2 hT1 hT2 hE.1 hE.2 hF.2 hXge h1
-    exact srgb_l_real b bh (toReal r) (specLinear X) hb0 hb1 hbhb hr3 hc
+    exact srgb_l_real b bh (toReal r) (specLinear X) _ hb0 hb1 hbhb hr3 hc
+
+end oracle
+
+section fast
+variable (B : Build) (hB : B.fastmath = true)
+include hB
+
+theorem srgb_to_linear : CurveWithinF (srgb_eotf B) specLinear := by
+  intro x hxw hx h0 h1
+  obtain ⟨r, h2, h3, h4⟩ := srgb_to_linear_o B _ _ (fast_oracle B hB) x hxw hx h0 h1
+  exact ⟨r, h2, h3, lt_of_le_of_lt h4 (by norm_num)⟩
 
 /-- **C03, sRGB through the dispatch, both directions** -/
 theorem srgb_curves :
     (∃ f, toLinearFn B .SRGB = .ok f ∧ CurveWithinF f specLinear) ∧ (∃ g, toGammaFn B .SRGB = .ok g ∧ CurveWithinF g specGamma) :=
   ⟨⟨_, rfl, srgb_to_linear B hB⟩, srgb_to_gamma_curve B hB⟩
+
+end fast
 
 end C03
